@@ -1,8 +1,8 @@
 """C13 — cars compose in order with documented precedence; provisioning mirrors templates.
 
 Leg M   : TLC enumerates a union of input universes of specs/Team (who defines a variable x which cars list which config
-          bases x template trees / archive content) and checks that the operational transcription of team.load_car /
-          ElasticsearchInstaller.variables / _apply_config / cleanup satisfies the declarative clauses of C13; nine seeded
+          bases x template trees / archive content x where the data paths are relative to the installation) and checks that the operational transcription of team.load_car /
+          ElasticsearchInstaller.variables / _apply_config / cleanup satisfies the declarative clauses of C13; ten seeded
           faults of the transcription must each violate them (self-test of the formulas).
 Leg S2C : TLC states (inputs) become REAL team directories (cars/v1/*.ini, <base>/config.ini, <base>/templates/** with
           Jinja templates and binary blobs) and a stub distribution tar.gz; the real team.load_car, ElasticsearchInstaller,
@@ -14,6 +14,7 @@ Leg C2S : every execution (S2C ones and seeded random, larger teams not derived 
 import hashlib
 import os
 import random
+import re
 import shutil
 import tempfile
 
@@ -23,8 +24,8 @@ from ..tlaparse import parse_state, to_json
 
 S, L = teamfs.S, teamfs.L
 
-SELFTEST_QUICK = ["overwrite", "internal_first", "keep_data"]
-SELFTEST_ALL = ["first_base_wins", "params_first", "nodedup", "earlier_car_wins", "base_over_car", "internal_first", "overwrite", "ignore_preserve", "keep_data"]
+SELFTEST_QUICK = ["overwrite", "internal_first", "prefix_skip"]
+SELFTEST_ALL = ["first_base_wins", "params_first", "nodedup", "earlier_car_wins", "base_over_car", "internal_first", "overwrite", "ignore_preserve", "keep_data", "prefix_skip"]
 
 
 # ---------------------------------------------------------------------------------------------------
@@ -63,6 +64,11 @@ def inp_from_state(st):
     }
 
 
+# a source proposes a data path that is placed relative to the installation / the node root (universe C of MC_Team): such
+# inputs are few and always executed, also in the sampled quick tier
+_LAYOUT = re.compile(r'data_paths\s*\|->\s*\[\s*l\s*\|->\s*(?:TRUE|FALSE)\s*,\s*v\s*\|->\s*<<\s*"\$(?:ES|NODE)')
+
+
 def read_initial_states(path, keep):
     """Blocks of a TLC dump that are initial states (done = FALSE) and selected by keep(sha1 of the block text)."""
     res = []
@@ -75,7 +81,7 @@ def read_initial_states(path, keep):
             return
         total += 1
         h = hashlib.sha1(text.encode("utf-8")).hexdigest()
-        if keep(h):
+        if keep(h) or _LAYOUT.search(text):
             res.append((h, text))
 
     with open(path, "r", encoding="utf-8") as f:
@@ -128,10 +134,19 @@ def random_inp(rnd):
     def value(k):
         counter[0] += 1
         if k == "data_paths":
-            return S("$DATA/d%d" % counter[0])
+            return S(data_path())
         if k == "runtime.jdk":
             return S(str(rnd.choice([11, 17, 21])))
         return S("v%d" % counter[0])
+
+    def data_path():
+        # on another root, inside the ES home, siblings of the ES home named after it, next to / inside the install root
+        counter[0] += 1
+        n = counter[0]
+        r = rnd.random()
+        if r < 0.45:
+            return "$DATA/d%d" % n
+        return rnd.choice(["$ES-data%d", "$ES.data%d", "$ES_data%d", "$ES/inner/d%d", "$ES/data/sub%d", "$NODE/install-data%d", "$NODE/install/sibling%d", "$NODE/data%d", "$DATA/elasticsearch-9.9.9/d%d"]) % n
 
     def varmap(p):
         return {k: value(k) for k in keys if rnd.random() < p}
@@ -159,8 +174,7 @@ def random_inp(rnd):
         if rnd.random() < 0.15:
             params[k] = value(k)
     if rnd.random() < 0.25:
-        counter[0] += 2
-        params["data_paths"] = L(["$DATA/p%d" % (counter[0] - 1), "$DATA/p%d" % counter[0]])
+        params["data_paths"] = L([data_path() for _ in range(rnd.randint(1, 3))])
     shipped = [{"path": ["config", "elasticsearch.yml"], "kind": "text", "cid": "S1"}]
     for i, p in enumerate(rnd.sample(PATHS[1:], rnd.randint(0, 5))):
         k = kind_of(p)
@@ -194,6 +208,16 @@ def _norm(it):
     )
 
 
+def _dp_kind(p):
+    if p.startswith("$ES/"):
+        return "inside_es_home"
+    if p.startswith("$ES"):
+        return "sibling_named_after_es_home"
+    if p.startswith("$NODE/install"):
+        return "at_install_root"
+    return "elsewhere"
+
+
 def _sig(it, clauses):
     inp = it["inp"]
     mentions = [b for c in inp["cars"] for b in c["bases"]]
@@ -204,17 +228,20 @@ def _sig(it, clauses):
         "base_mentioned_twice": len(set(mentions)) != len(mentions),
         "car_params": bool(inp["params"]),
         "preserve": inp["preserve"],
+        "data_path_kinds": sorted({_dp_kind(p) for p in it["out"]["dataPaths"]}),
     }
 
 
 def _detail(it):
     inp = it["inp"]
-    return "cars=%s params=%s preserve=%s err=%s paths=%s" % (
+    return "cars=%s params=%s preserve=%s err=%s paths=%s data_paths=%s left_after_cleanup=%s" % (
         [(c["name"], c["bases"]) for c in inp["cars"]],
         sorted(inp["params"]),
         inp["preserve"],
         it["out"]["err"],
         it["out"]["paths"],
+        it["out"]["dataPaths"],
+        sorted(p for p, e in it["out"]["after"]["exists"].items() if e),
     )
 
 
@@ -296,14 +323,19 @@ def run(ctx, out):
             if f["kind"] == "text" and f["path"][0] != "config" and tuple(f["path"]) in prov:
                 prov[tuple(f["path"])] += 1
         dp = "data_paths" in inp["params"] or any("data_paths" in c["vars"] for c in inp["cars"]) or any("data_paths" in inp["bases"][b]["vars"] for b in ment)
-        return {"nobase": not ment, "dup": n_ment != len(ment), "app": any(v > 1 for v in prov.values()), "ext": bool(ment) and dp, "pres": bool(ment) and inp["preserve"]}
+        win = None  # the data paths that win (params over later car over earlier car; those of config bases are not needed here)
+        for c in inp["cars"]:
+            win = c["vars"].get("data_paths", win)
+        win = inp["params"].get("data_paths", win)
+        sib = bool(ment) and not inp["preserve"] and win is not None and any(x.startswith("$ES") and not x.startswith("$ES/") for x in win["v"])
+        return {"nobase": not ment, "dup": n_ment != len(ment), "app": any(v > 1 for v in prov.values()), "ext": bool(ment) and dp, "pres": bool(ment) and inp["preserve"], "sib": sib}
 
     fs = [feats(it["inp"]) for it in items]
     for it, f in zip(items, fs):
         out.add_case(_norm(it), nontrivial=not f["nobase"] and any(bd["tree"] for bd in it["inp"]["bases"].values()))
-    n_err, n_dup, n_app, n_ext, n_pres = (sum(1 for f in fs if f[k2]) for k2 in ("nobase", "dup", "app", "ext", "pres"))
-    out.extra["executions"] = {"total": len(items), "no_config_base": n_err, "config_base_mentioned_twice": n_dup, "file_appended_by_several_sources": n_app, "external_data_paths": n_ext, "preserve_install": n_pres}
-    for name, cnt in (("appended files", n_app), ("duplicate base mentions", n_dup), ("external data paths", n_ext), ("preserve", n_pres), ("no-base errors", n_err)):
+    n_err, n_dup, n_app, n_ext, n_pres, n_sib = (sum(1 for f in fs if f[k2]) for k2 in ("nobase", "dup", "app", "ext", "pres", "sib"))
+    out.extra["executions"] = {"total": len(items), "no_config_base": n_err, "config_base_mentioned_twice": n_dup, "file_appended_by_several_sources": n_app, "user_data_paths": n_ext, "data_path_sibling_named_after_es_home_wiped": n_sib, "preserve_install": n_pres}
+    for name, cnt in (("appended files", n_app), ("data path that is a name-prefix sibling of the ES home (cleanup without preserve)", n_sib), ("duplicate base mentions", n_dup), ("external data paths", n_ext), ("preserve", n_pres), ("no-base errors", n_err)):
         if cnt == 0:
             out.vacuous.append("no executed case with " + name)
     mid = items[len(items) // 2]
